@@ -187,7 +187,71 @@ def rule_f(ctx):
     from . import c03
     c03.rule_b(ctx)
 
+TS = "util::task_set::"
+
+
+def rule_g(ctx):
+    """TaskSet: a sub-task's index is its position; the parent is notified when the countdown expires; iteration yields live indices only"""
+    P = ctx.prog
+    w = ctx.body("<util::task_set::Task as futures_task::ArcWake>::wake_by_ref")
+    if w:
+        nt = list(w.calls(r"^diatomic_waker::WakeSource::notify$"))
+        cas = [s for s in w.calls("^" + ATOM + "compare_exchange_weak$") if atomics.receiver_field(w, s) == "head"]
+        ok = len(nt) == 1 and len(cas) == 1
+        if ok:
+            conds = w.conditions(nt[0])
+            on_ok = any(c.kind == "variant" and c.data[1] == {"Ok"} and not c.data[2] and c.data[0] == frozenset([("call", cas[0].b, cas[0].callee)]) for c in conds)
+            cd = False
+            for c in conds:
+                if c.kind == "cmp" and c.data[0] == "==":
+                    sides = c.data[1] | c.data[2]
+                    if any(x[0] == "const" and str(x[2]).endswith("COUNTDOWN_ONE") for x in sides) and any(x[0] == "bin" and x[1] == "BitAnd" for x in sides):
+                        cd = True
+            ok = on_ok and cd
+        ctx.ob("taskset|notify-when-countdown-expires", ok,
+               "the parent task is notified exactly by the wake-up that brings the countdown from one to zero, after its head CAS succeeded", nt + cas)
+        if len(cas) == 1:
+            no = w.origins(cas[0].args()[2], cas[0])
+            ok = any(K.flows_from(w, frozenset([x]), lambda t: t[0] == "proj" and t[2] == ("f", "idx")) for x in no)
+            ctx.ob("taskset|pushed-index-is-own-idx", ok, "a woken sub-task pushes its own index onto the scheduled stack", cas)
+    it = ctx.body("<util::task_set::TaskIterator as std::iter::Iterator>::next")
+    if it:
+        somes = [r for r in K.ret_assigns(it) if not r.is_term and r.node["r"]["r"] == "agg" and r.node["r"].get("variant") == "Some"]
+        ok = len(somes) == 1
+        if ok:
+            conds = it.conditions(somes[0])
+            lt = False
+            for c in conds:
+                if c.kind == "cmp" and c.data[0] in ("<",):
+                    if any(origin_proj_names(x)[1][-1:] == [("f", "task_count")] for x in c.data[2]):
+                        lt = True
+                if c.kind == "cmp" and c.data[0] in (">",):
+                    if any(origin_proj_names(x)[1][-1:] == [("f", "task_count")] for x in c.data[1]):
+                        lt = True
+            ok = lt
+        ctx.ob("taskset|yields-only-live-indices", ok, "the scheduled-task iterator yields an index only if it is below the current task count", somes)
+        sw = [s for s in it.calls("^" + ATOM + "swap$")]
+        ok = len(sw) == 1 and any(x[0] == "const" and str(x[2]).endswith("SLEEPING") for x in it.origins(sw[0].args()[1], sw[0]))
+        ctx.ob("taskset|taken-task-put-to-sleep", ok, "a task taken from the scheduled stack is marked sleeping (so that its next wake-up re-schedules it)", sw)
+    rz = ctx.body(TS + "TaskSet::resize")
+    if rz:
+        aggs = list(rz.aggregates(adt=TS + "Task"))
+        ok = len(aggs) == 1
+        if ok:
+            fo = dict(zip(aggs[0].node["r"]["fields"], aggs[0].node["r"]["ops"]))
+            io = rz.origins(fo["idx"], aggs[0])
+            ok = bool(io) and all(x[0] == "call" and x[2] == "std::vec::Vec::len" for x in io)
+            nx = rz.origins(fo["next"], aggs[0])
+        ctx.ob("taskset|task-idx-is-position", ok, "a new sub-task's index is its position in the task vector", aggs)
+    wk = ctx.body(TS + "TaskSet::waker_of")
+    if wk:
+        ix = [s for s in wk.calls(r"^std::ops::Index::index$")]
+        ok = len(ix) == 1 and wk.origins(ix[0].args()[1], ix[0]) == frozenset([("arg", 2)])
+        ctx.ob("taskset|waker-of-idx", ok, "waker_of(idx) hands out the waker of tasks[idx]", ix)
+
+
 RULES = [
+    ("C14.g", "TaskSet index / notification discipline", rule_g),
     ("C14.f", "every replier connection sends the mapped request once and returns the reply of that replier", rule_f),
     ("C14.a", "BroadcastFuture::poll: index agreement, counter, completion, waker registration", rule_a),
     ("C14.c", "reply order and count", rule_c),
